@@ -31,7 +31,7 @@ def worker(unit, emit):
     mod = lib.module(name)
     rnd = random.Random('%s/%s' % (p['seed'], name))
     corp = lib.distinct_compact(name, mod, lib.corpus(name, mod))
-    bases = lib.pick_bases(name, mod, corp, p['bases'], rnd)
+    bases = lib.pick_bases(name, mod, corp, p['bases'], rnd, corpus_items=lib.corpus(name, mod))
     emit.count('modules')
     opts = ac.option_sets(name, mod)
 
